@@ -511,7 +511,14 @@ class Builder:
         def rep(m):
             return ts.get(m.group(0), m.group(0))
 
-        return re.sub(r"[A-Za-z_][A-Za-z0-9_]*", rep, ty)
+        out = re.sub(r"[A-Za-z_][A-Za-z0-9_]*", rep, ty)
+        # a crate type alias without parameters stands for its definition (`type MinDefault = Defaulted<Minutes>;`)
+        for _ in range(3):
+            al = self.facts.types.get(out)
+            if al is None or (al.get("generics") or "").strip("<> "):
+                break
+            out = F.norm_ty(al["ty"])
+        return out
 
     def _resolve_fn_path(self, p, env):
         """Resolve a path expression that names a parser function. Returns (fnkey, tsubst) or None."""
